@@ -416,6 +416,15 @@ func genVal(r *vproto.Rng, p colPlan, max int) val {
 	}
 }
 
+func indexOf(b []byte, c byte) int {
+	for i, x := range b {
+		if x == c {
+			return i
+		}
+	}
+	return 0
+}
+
 func nrecs(r *vproto.Rng, tier string) int {
 	switch r.Intn(12) {
 	case 0:
@@ -534,6 +543,15 @@ func genCase(r *vproto.Rng, tier string) fcase {
 			widths[i] = f.size
 			c.w.ff = append(c.w.ff, f)
 		}
+	}
+
+	if c.w.path == 'S' && r.Intn(3) == 0 { // writer schedule: Encode and EncodeFields mixed on the one encoder
+		k := r.Range(2, 4)
+		for i := 0; i < k; i++ {
+			c.w.wsched = append(c.w.wsched, "EF"[r.Intn(2)])
+		}
+		c.w.wsched[r.Intn(k)] = 'F'
+		c.w.wsched[(r.Intn(k-1)+1+indexOf(c.w.wsched, 'F'))%k] = 'E'
 	}
 
 	// ---- reader
@@ -781,6 +799,21 @@ func corpus() []fcase {
 		rd := spec{path: 'S', reuse: true, sf: []sfield{{"G", "", "gP"}, {"ID", "", "i"}, {"Name", "", "s"}, {"V", "", "f"}, {"Note", "", "s"}}}
 		out = append(out, fcase{w: ws, r: rd, recs: recs}, fcase{w: wf, r: rd, recs: recs})
 		out = append(out, fcase{w: ws, r: spec{path: 'M', calls: []spec{rd, {path: 'F'}, rd}}, recs: recs})
+	}
+	// 7d. writer schedules: Encode and EncodeFields mixed on one NewEncoder encoder share the row cursor
+	{
+		sf := []sfield{{"G", "", "gP"}, {"Name", "", "s"}, {"V", "", "f"}}
+		recs := []rec{{P(1, 1), []val{sv("first"), fv(1)}}, {P(2, 2), []val{sv("second"), fv(2)}}, {P(3, 3), []val{sv("third"), fv(3)}},
+			{P(4, 4), []val{sv("fourth"), fv(4)}}, {P(5, 5), []val{sv("fifth"), fv(5)}}}
+		rd := spec{path: 'S', sf: sf}
+		for _, ws := range []string{"EEFE", "EF", "FE", "FFE", "EFF"} {
+			out = append(out, fcase{w: spec{path: 'S', sf: sf, wsched: []byte(ws)}, r: rd, recs: recs})
+			out = append(out, fcase{w: spec{path: 'S', sf: sf, wsched: []byte(ws)}, r: spec{path: 'F', names: []string{"name", "v"}}, recs: recs})
+		}
+		// a refused attribute (51 bytes) in between
+		recs2 := []rec{recs[0], {P(2, 2), []val{sv(strings.Repeat("z", 51)), fv(2)}}, recs[2], recs[3]}
+		out = append(out, fcase{w: spec{path: 'S', sf: sf, wsched: []byte("EEF")}, r: rd, recs: recs2})
+		out = append(out, fcase{w: spec{path: 'S', sf: sf, wsched: []byte("FEE")}, r: rd, recs: recs2})
 	}
 	// 8. no geometry field in the archetype
 	out = append(out, fcase{w: spec{path: 'S', sf: []sfield{{"N", "", "i"}}}, r: spec{path: 'F'}, recs: nil})
